@@ -16,6 +16,12 @@ pub struct C04;
 pub struct Case {
     pub w: Wit,
     pub follow: Vec<Follow>,
+    /// 1..=3: additionally the circuit's full witness vector, written as an external witness
+    /// calculator may write it (1 = canonical, 2 = balanced: v > (p-1)/2 as v - p, 3 = every non-zero
+    /// entry as v - p), goes through generate_proof_with_witness, and the proof must verify for the
+    /// values the formulas give
+    #[serde(default)]
+    pub proof_repr: u8,
 }
 
 #[derive(Clone, Copy, Debug, serde::Serialize, serde::Deserialize)]
@@ -54,7 +60,7 @@ impl Property for C04 {
         "C04"
     }
     fn rule(&self) -> String {
-        "witnesses (s, limit, m, 20 path elements, 20 direction bits, x, e) accepted by the circuit (m < limit <= 2^16), field values boundary-weighted, bit patterns weighted to all-0/all-1/alternating/single-1/single-0/random; three-way comparison proof_values_from_witness == BigUint formulas (reference Poseidon) == witness vector positions 1..5 of the bundled graph (y, root, nullifier, x, e), plus serialize_proof_values bytes == the formulas' values in the documented layout; 40% of the cases are followed back to back on the same thread by 1..3 related witnesses (another message id below the limit / another x / external nullifier / secret / the same) and by the first witness again. \
+        "witnesses (s, limit, m, 20 path elements, 20 direction bits, x, e) accepted by the circuit (m < limit <= 2^16), field values boundary-weighted, bit patterns weighted to all-0/all-1/alternating/single-1/single-0/random; three-way comparison proof_values_from_witness == BigUint formulas (reference Poseidon) == witness vector positions 1..5 of the bundled graph (y, root, nullifier, x, e), plus serialize_proof_values bytes == the formulas' values in the documented layout; 40% of the cases are followed back to back on the same thread by 1..3 related witnesses (another message id below the limit / another x / external nullifier / secret / the same) and by the first witness again; one witness in eight is evaluated from a caller buffer that held (and was evaluated as) a same-length sibling of the graph file just before; fixed part: 3 (thorough 30) witnesses whose full circuit vector, written with canonical / balanced / negative entries, goes through generate_proof_with_witness and must verify for the formulas' values. \
          non-trivial = a direction bit set at level >= 8 or a boundary field value; distinct by case content".into()
     }
     fn assumptions(&self) -> Vec<String> {
@@ -75,7 +81,7 @@ impl Property for C04 {
             1 => gens::fx().prop_map(Follow::S),
             1 => Just(Follow::Same),
         ];
-        (valid_wit(), prop_oneof![3 => Just(vec![]).boxed(), 2 => proptest::collection::vec(follow, 1..4).boxed()]).prop_map(|(w, follow)| Case { w, follow }).boxed()
+        (valid_wit(), prop_oneof![3 => Just(vec![]).boxed(), 2 => proptest::collection::vec(follow, 1..4).boxed()]).prop_map(|(w, follow)| Case { w, follow, proof_repr: 0 }).boxed()
     }
     fn check(&self, ctx: &Ctx, c: &Case) -> Outcome {
         let mut o = check_one(ctx, &c.w);
@@ -101,11 +107,79 @@ impl Property for C04 {
             }
         }
         o.evals = evals;
+        if c.proof_repr > 0 && !o.failed() {
+            o.label(format!("proof-from-external-vector/{}", ["", "canonical", "balanced", "negative"][c.proof_repr as usize % 4]));
+            prove_external(&c.w, c.proof_repr, &mut o);
+        }
         o
+    }
+    /// a few witnesses per run also go through the external-vector prover in each representation
+    fn fixed_part(&self, ctx: &Ctx, stats: &mut Stats) -> Option<(String, Option<Case>)> {
+        let n = ctx.tier.pick(3, 30);
+        let ws = crate::pipeline::draw(&valid_wit(), ctx.seed, "c04-external", n);
+        for (k, w) in ws.into_iter().enumerate() {
+            let c = Case { w, follow: vec![], proof_repr: (k % 3) as u8 + 1 };
+            let out = self.check(ctx, &c);
+            stats.record(&out, case_hash(&c), || self.sample_view(&c));
+            if let Some(m) = out.fail {
+                return Some((m, Some(c)));
+            }
+        }
+        None
     }
     fn sample_view(&self, c: &Case) -> serde_json::Value {
         let w = &c.w;
         serde_json::json!({"s": w.s, "limit": w.limit, "mid": w.mid, "bits": w.bits.iter().map(|b| b.to_string()).collect::<String>(), "x": w.x, "e": w.e, "path0": w.path[0], "follow": c.follow})
+    }
+}
+
+fn prove_external(w: &Wit, repr: u8, o: &mut Outcome) {
+    use num_bigint::{BigInt, BigUint};
+    let r = w.to_ref();
+    let want = formulas::ref_values(&r.s, &r.limit, &r.mid, &r.path, &r.bits, &r.x, &r.e);
+    let wv = match guarded(|| rln::circuit::calculate_rln_witness(named_inputs(w), graph_bytes())) {
+        Ok(v) => v,
+        Err(p) => {
+            vfail!(o, "calculate_rln_witness panicked on a valid witness: {}", p.0);
+            return;
+        }
+    };
+    let pm: BigUint = crate::models::field::p().clone();
+    let half = (&pm - 1u32) / 2u32;
+    let vec: Vec<BigInt> = wv
+        .iter()
+        .map(|f| {
+            let v = fr_to_big(f);
+            let neg = match repr {
+                2 => v > half,
+                3 => v != BigUint::from(0u32),
+                _ => false,
+            };
+            if neg {
+                BigInt::from(v) - BigInt::from(pm.clone())
+            } else {
+                BigInt::from(v)
+            }
+        })
+        .collect();
+    let key = rln::circuit::zkey_from_folder();
+    let proof = match guarded(|| rln::protocol::generate_proof_with_witness(vec, key).map_err(|e| e.to_string())) {
+        Ok(Ok(p)) => p,
+        Ok(Err(e)) => {
+            vfail!(o, "generate_proof_with_witness refused the circuit's own witness vector (representation {repr}): {e}");
+            return;
+        }
+        Err(p) => {
+            vfail!(o, "generate_proof_with_witness panicked: {}", p.0);
+            return;
+        }
+    };
+    let big = crate::models::field::big_to_fr;
+    let values = rln::protocol::RLNProofValues { y: big(&want.y), nullifier: big(&want.nullifier), root: big(&want.root), x: big(&r.x), external_nullifier: big(&r.e) };
+    o.evals += 1;
+    match guarded(|| rln::protocol::verify_proof(&key.0.vk, &proof, &values).map_err(|e| e.to_string())) {
+        Ok(Ok(true)) => {}
+        other => vfail!(o, "the proof made from the circuit's witness vector (entries written in representation {repr}: 1 canonical, 2 balanced, 3 negative) does not verify for the values the RLN formulas give: {other:?}"),
     }
 }
 
@@ -157,7 +231,23 @@ fn check_one(_ctx: &Ctx, w: &Wit) -> Outcome {
                 return o;
             }
         }
-        match guarded(|| rln::circuit::calculate_rln_witness(named_inputs(w), graph_bytes())) {
+        // one witness in eight: the circuit is evaluated from a caller buffer that held a same-length
+        // sibling of the graph file (one constant changed) a moment ago and was evaluated as such
+        let reuse = case_hash(w) % 8 == 0;
+        let mut buf: Vec<u8> = vec![];
+        let mut g: &[u8] = graph_bytes();
+        if reuse {
+            if let Ok((g0, g1)) = crate::props::c05::restored_graphs() {
+                if g0.len() == g1.len() {
+                    o.label("graph-buffer-reused-after-a-sibling-graph");
+                    buf.extend_from_slice(g1);
+                    let _ = guarded(|| rln::circuit::calculate_rln_witness(named_inputs(w), &buf[..]));
+                    buf.copy_from_slice(g0);
+                    g = &buf[..];
+                }
+            }
+        }
+        match guarded(|| rln::circuit::calculate_rln_witness(named_inputs(w), g)) {
             Ok(wv) => {
                 if wv.len() < 6 {
                     vfail!(o, "witness vector has only {} elements", wv.len());
